@@ -434,6 +434,12 @@ unit({
         _fn('src/Sprite/PaletteHeader.cpp', 'PaletteHeader::CreatePaletteHeader', 'PaletteHeader_CreatePaletteHeader', cls='PaletteHeader', static=True,
             calls={'PaletteHeader': N('PaletteHeader_default', recv='none')}),
         _fn('src/Sprite/PaletteHeader.cpp', 'PaletteHeader::Validate', 'PaletteHeader_Validate', cls='PaletteHeader'),
+        _fn('src/Sprite/ArtWriter.cpp', 'ArtFile::Write', 'ArtFile_Write', cls='ArtFile', ordinal=1,
+            calls={'ValidateImageMetadata': T('ArtFile_ValidateImageMetadata_U'), 'WritePalettes': T('ArtFile_WritePalettes_U', args=['ref']), 'WriteAnimations': T('ArtFile_WriteAnimations_U', args=['ref']),
+                   'Write': {('uint32_t', 1): T('Writer_WriteSized_u32_vec_ImageMeta', args=['ref'])}}),
+        _fn('src/Sprite/ArtWriter.cpp', 'ArtFile::WriteAnimations', 'ArtFile_WriteAnimations', cls='ArtFile', rangefor={'animation': 'Animation'},
+            calls={'Write': {1: [(r'.*', T('Wr_Write', args=['objtmp']))]}, 'CountFrames': N('ArtFile_CountFrames_U', args=['ref', 'ref', 'ref']), 'WriteAnimation': T('ArtFile_WriteAnimation_U', recv='none', args=['ref', 'ref'])},
+            views=[(r'self->animations', 'vec')]),
         _fn('src/Sprite/ArtWriter.cpp', 'ArtFile::WriteFrame', 'ArtFile_WriteFrame', cls='ArtFile', static=True,
             calls={'Write': {1: [(r'\(\*frame\)\.layers', T('Wr_Write', args=['vec'])), (r'.*', T('Wr_Write', args=['objtmp']))]}}, views=[(r'\(\*frame\)\.layers', 'vec')]),
         _fn('src/Sprite/ArtReader.cpp', 'ArtFile::ReadFrame', 'ArtFile_ReadFrame', cls='ArtFile', static=True, ret_cxx='Frame',
